@@ -46,3 +46,381 @@ func VpC16_HeaderShort(a []int) {
 	vpAssert("C16.header.short-rejected", h.Unmarshal(b) != nil)
 	vpReach("end")
 }
+
+// ---- TWCC run-length chunk: all 2^16 words, all in-range field values.
+func VpC16_RunLengthDecode(a []int) {
+	raw := []byte{vpU8(), vpU8()}
+	var c RunLengthChunk
+	err := c.Unmarshal(raw)
+	vpAssert("C16.rlc.decode-ok", err == nil)
+	w := uint16(raw[0])<<8 | uint16(raw[1])
+	vpAssert("C16.rlc.fields", c.Type == TypeTCCRunLengthChunk && c.PacketStatusSymbol == (w>>13)&3 && c.RunLength == w&0x1FFF)
+	out, e2 := c.Marshal()
+	vpAssert("C16.rlc.reencode-ok", e2 == nil && len(out) == 2)
+	if e2 == nil && len(out) == 2 && w&0x8000 == 0 {
+		vpAssert("C16.rlc.canon", out[0] == raw[0] && out[1] == raw[1])
+	}
+	vpObserveU64("sym", uint64(c.PacketStatusSymbol))
+	vpObserveU64("run", uint64(c.RunLength))
+	vpReach("end")
+}
+
+func VpC16_RunLengthEncode(a []int) {
+	c := RunLengthChunk{PacketStatusSymbol: vpU16(), RunLength: vpU16()}
+	vpAssume(c.PacketStatusSymbol < 4 && c.RunLength < 8192)
+	out, err := c.Marshal()
+	vpAssert("C16.rlc.encode-ok", err == nil && len(out) == 2)
+	if err == nil && len(out) == 2 {
+		vpAssert("C16.rlc.typebit", out[0]&0x80 == 0)
+		var d RunLengthChunk
+		e2 := d.Unmarshal(out)
+		vpAssert("C16.rlc.roundtrip", e2 == nil && d.PacketStatusSymbol == c.PacketStatusSymbol && d.RunLength == c.RunLength && d.Type == TypeTCCRunLengthChunk)
+		vpObserveBytes("out", out)
+	}
+	vpReach("end")
+}
+
+func VpC16_ChunkShort(a []int) {
+	b := vpBytes(a[0])
+	var c RunLengthChunk
+	var v StatusVectorChunk
+	vpAssert("C16.chunk.len-rejected", c.Unmarshal(b) != nil && v.Unmarshal(b) != nil)
+	vpReach("end")
+}
+
+// ---- TWCC status vector chunk.
+func VpC16_StatusVectorDecode(a []int) {
+	raw := []byte{vpU8(), vpU8()}
+	vpAssume(raw[0]&0x80 != 0)
+	var c StatusVectorChunk
+	err := c.Unmarshal(raw)
+	vpAssert("C16.svc.decode-ok", err == nil)
+	w := uint16(raw[0])<<8 | uint16(raw[1])
+	if w&0x4000 == 0 {
+		ok := c.SymbolSize == TypeTCCSymbolSizeOneBit && len(c.SymbolList) == 14
+		if ok {
+			for i := 0; i < 14; i++ {
+				ok = ok && c.SymbolList[i] == (w>>(13-uint(i)))&1
+			}
+		}
+		vpAssert("C16.svc.onebit-symbols", ok)
+	} else {
+		ok := c.SymbolSize == TypeTCCSymbolSizeTwoBit && len(c.SymbolList) == 7
+		if ok {
+			for i := 0; i < 7; i++ {
+				ok = ok && c.SymbolList[i] == (w>>(12-2*uint(i)))&3
+			}
+		}
+		vpAssert("C16.svc.twobit-symbols", ok)
+	}
+	vpAssert("C16.svc.type", c.Type == TypeTCCStatusVectorChunk)
+	out, e2 := c.Marshal()
+	vpAssert("C16.svc.reencode-ok", e2 == nil && len(out) == 2)
+	if e2 == nil && len(out) == 2 {
+		vpAssert("C16.svc.canon", out[0] == raw[0] && out[1] == raw[1])
+		vpObserveBytes("out", out)
+	}
+	vpReach("end")
+}
+
+func VpC16_StatusVectorEncode(a []int) {
+	two := a[0] == 1
+	n := 14
+	lim := uint16(2)
+	if two {
+		n = 7
+		lim = 4
+	}
+	c := StatusVectorChunk{SymbolSize: uint16(a[0])}
+	for i := 0; i < n; i++ {
+		s := vpU16()
+		vpAssume(s < lim)
+		c.SymbolList = append(c.SymbolList, s)
+	}
+	out, err := c.Marshal()
+	vpAssert("C16.svc.encode-ok", err == nil && len(out) == 2)
+	if err == nil && len(out) == 2 {
+		vpAssert("C16.svc.typebits", out[0]&0x80 != 0 && (out[0]&0x40 != 0) == two)
+		var d StatusVectorChunk
+		e2 := d.Unmarshal(out)
+		ok := e2 == nil && d.SymbolSize == c.SymbolSize && len(d.SymbolList) == n
+		if ok {
+			for i := 0; i < n; i++ {
+				ok = ok && d.SymbolList[i] == c.SymbolList[i]
+			}
+		}
+		vpAssert("C16.svc.roundtrip", ok)
+	}
+	vpReach("end")
+}
+
+// ---- receive deltas.
+func VpC16_RecvDeltaDecode(a []int) {
+	n := a[0]
+	raw := vpBytes(n)
+	var d RecvDelta
+	err := d.Unmarshal(raw)
+	if n != 1 && n != 2 {
+		vpAssert("C16.delta.len-rejected", err != nil)
+		vpReach("end")
+		return
+	}
+	vpAssert("C16.delta.decode-ok", err == nil)
+	if n == 1 {
+		vpAssert("C16.delta.small", d.Type == TypeTCCPacketReceivedSmallDelta && d.Delta == 250*int64(raw[0]))
+	} else {
+		vpAssert("C16.delta.large", d.Type == TypeTCCPacketReceivedLargeDelta && d.Delta == 250*int64(int16(uint16(raw[0])<<8|uint16(raw[1]))))
+	}
+	out, e2 := d.Marshal()
+	vpAssert("C16.delta.reencode-ok", e2 == nil && len(out) == n)
+	if e2 == nil && len(out) == n {
+		ok := true
+		for i := 0; i < n; i++ {
+			ok = ok && out[i] == raw[i]
+		}
+		vpAssert("C16.delta.canon", ok)
+	}
+	vpObserveU64("delta", uint64(d.Delta))
+	vpReach("end")
+}
+
+// all (Type, wire value) pairs: encode(250*v) decodes back to 250*v.
+func VpC16_RecvDeltaEncode(a []int) {
+	typ := uint16(a[0])
+	v := int64(int16(vpU16()))
+	if typ == TypeTCCPacketReceivedSmallDelta {
+		vpAssume(v >= 0 && v <= 255)
+	}
+	d := RecvDelta{Type: typ, Delta: 250 * v}
+	out, err := d.Marshal()
+	vpAssert("C16.delta.encode-ok", err == nil)
+	if err == nil {
+		var e RecvDelta
+		e2 := e.Unmarshal(out)
+		vpAssert("C16.delta.roundtrip", e2 == nil && e.Type == typ && e.Delta == d.Delta)
+	}
+	vpReach("end")
+}
+
+// ---- reception report (24 octets, 24-bit cumulative loss).
+func VpC16_ReceptionReportDecode(a []int) {
+	raw := vpBytes(24)
+	var r ReceptionReport
+	err := r.Unmarshal(raw)
+	vpAssert("C16.rr.decode-ok", err == nil)
+	be32 := func(i int) uint32 {
+		return uint32(raw[i])<<24 | uint32(raw[i+1])<<16 | uint32(raw[i+2])<<8 | uint32(raw[i+3])
+	}
+	vpAssert("C16.rr.fields", r.SSRC == be32(0) && r.FractionLost == raw[4] &&
+		r.TotalLost == uint32(raw[5])<<16|uint32(raw[6])<<8|uint32(raw[7]) &&
+		r.LastSequenceNumber == be32(8) && r.Jitter == be32(12) && r.LastSenderReport == be32(16) && r.Delay == be32(20))
+	out, e2 := r.Marshal()
+	vpAssert("C16.rr.reencode-ok", e2 == nil && len(out) == 24)
+	if e2 == nil && len(out) == 24 {
+		ok := true
+		for i := 0; i < 24; i++ {
+			ok = ok && out[i] == raw[i]
+		}
+		vpAssert("C16.rr.canon", ok)
+		vpObserveBytes("out", out)
+	}
+	vpReach("end")
+}
+
+func VpC16_ReceptionReportEncode(a []int) {
+	r := ReceptionReport{SSRC: vpU32(), FractionLost: vpU8(), TotalLost: vpU32(), LastSequenceNumber: vpU32(), Jitter: vpU32(), LastSenderReport: vpU32(), Delay: vpU32()}
+	out, err := r.Marshal()
+	vpAssert("C16.rr.loss-limit", (err != nil) == (r.TotalLost >= 1<<24))
+	if err == nil {
+		vpAssert("C16.rr.len24", len(out) == 24)
+		var d ReceptionReport
+		e2 := d.Unmarshal(out)
+		vpAssert("C16.rr.roundtrip", e2 == nil && d == r)
+	} else {
+		vpAssert("C16.rr.no-bytes-on-error", out == nil)
+	}
+	vpObserveBool("err", err != nil)
+	vpReach("end")
+}
+
+func VpC16_ReceptionReportShort(a []int) {
+	raw := vpBytes(a[0])
+	var r ReceptionReport
+	vpAssert("C16.rr.short-rejected", r.Unmarshal(raw) != nil)
+	vpReach("end")
+}
+
+// ---- RFC 8888 metric block through the public packet API (two-entry block).
+func VpC16_MetricBlockEncode(a []int) {
+	m0 := CCFeedbackMetricBlock{Received: vpBool(), ECN: ECN(vpU8()), ArrivalTimeOffset: vpU16()}
+	m1 := CCFeedbackMetricBlock{Received: vpBool(), ECN: ECN(vpU8()), ArrivalTimeOffset: vpU16()}
+	canon := func(m CCFeedbackMetricBlock) bool {
+		return m.ECN < 4 && m.ArrivalTimeOffset < 8192 && (m.Received || (m.ECN == 0 && m.ArrivalTimeOffset == 0))
+	}
+	vpAssume(canon(m0) && canon(m1))
+	begin := vpU16()
+	vpAssume(begin <= 65534)
+	p := CCFeedbackReport{SenderSSRC: vpU32(), ReportTimestamp: vpU32(), ReportBlocks: []CCFeedbackReportBlock{{MediaSSRC: vpU32(), BeginSequence: begin, MetricBlocks: []CCFeedbackMetricBlock{m0, m1}}}}
+	out, err := p.Marshal()
+	vpAssert("C16.ccfb.encode-ok", err == nil && len(out) == 24)
+	if err == nil && len(out) == 24 {
+		w0 := uint16(out[16])<<8 | uint16(out[17])
+		exp := m0.ArrivalTimeOffset | uint16(m0.ECN)<<13
+		if m0.Received {
+			exp |= 0x8000
+		}
+		vpAssert("C16.ccfb.metric-layout", w0 == exp)
+		var q CCFeedbackReport
+		e2 := q.Unmarshal(out)
+		ok := e2 == nil && len(q.ReportBlocks) == 1 && len(q.ReportBlocks[0].MetricBlocks) == 2
+		if ok {
+			ok = q.ReportBlocks[0].MetricBlocks[0] == m0 && q.ReportBlocks[0].MetricBlocks[1] == m1
+		}
+		vpAssert("C16.ccfb.roundtrip", ok)
+		vpObserveBytes("out", out)
+	}
+	vpReach("end")
+}
+
+func VpC16_MetricBlockDecode(a []int) {
+	w0, w1 := vpU16(), vpU16()
+	begin := vpU16()
+	vpAssume(begin <= 65534)
+	raw := []byte{0x8b, 205, 0, 5, 1, 2, 3, 4, 9, 9, 9, 9, byte(begin >> 8), byte(begin), 0, 1,
+		byte(w0 >> 8), byte(w0), byte(w1 >> 8), byte(w1), 7, 7, 7, 7}
+	var q CCFeedbackReport
+	err := q.Unmarshal(raw)
+	ok := err == nil && len(q.ReportBlocks) == 1 && len(q.ReportBlocks[0].MetricBlocks) == 2
+	vpAssert("C16.ccfb.decode-ok", ok)
+	if ok {
+		m := q.ReportBlocks[0].MetricBlocks[0]
+		if w0&0x8000 != 0 {
+			vpAssert("C16.ccfb.decode-received", m.Received && uint16(m.ECN) == (w0>>13)&3 && m.ArrivalTimeOffset == w0&0x1FFF)
+		} else {
+			vpAssert("C16.ccfb.decode-lost", !m.Received && m.ECN == 0 && m.ArrivalTimeOffset == 0)
+		}
+		out, e2 := q.Marshal()
+		vpAssert("C16.ccfb.reencode-ok", e2 == nil && len(out) == 24)
+		if e2 == nil && len(out) == 24 && (w0&0x8000 != 0 || w0 == 0) && (w1&0x8000 != 0 || w1 == 0) {
+			same := true
+			for i := 0; i < 24; i++ {
+				same = same && out[i] == raw[i]
+			}
+			vpAssert("C16.ccfb.canon", same)
+		}
+	}
+	vpReach("end")
+}
+
+// ---- XR RLE chunk accessors vs RFC 3611 4.1.1-4.1.3.
+func VpC16_XRChunk(a []int) {
+	w := vpU16()
+	c := Chunk(w)
+	t := c.Type()
+	rt, err := c.RunType()
+	v := c.Value()
+	switch {
+	case w == 0:
+		vpAssert("C16.xrchunk.null", t == TerminatingNullChunkType && err != nil && v == 0)
+	case w&0x8000 == 0:
+		vpAssert("C16.xrchunk.run", t == RunLengthChunkType && err == nil && rt == uint(w>>14)&1 && v == uint(w&0x3FFF))
+	default:
+		vpAssert("C16.xrchunk.bitvector", t == BitVectorChunkType && err != nil && v == uint(w&0x7FFF))
+	}
+	vpObserveU64("type", uint64(t))
+	vpObserveU64("value", uint64(v))
+	vpReach("end")
+}
+
+// ---- NACK pair through a single-entry packet.
+func VpC16_NackPair(a []int) {
+	p := TransportLayerNack{SenderSSRC: vpU32(), MediaSSRC: vpU32(), Nacks: []NackPair{{PacketID: vpU16(), LostPackets: PacketBitmap(vpU16())}}}
+	out, err := p.Marshal()
+	vpAssert("C16.nack.encode-ok", err == nil && len(out) == 16)
+	if err == nil && len(out) == 16 {
+		vpAssert("C16.nack.layout", uint16(out[12])<<8|uint16(out[13]) == p.Nacks[0].PacketID && uint16(out[14])<<8|uint16(out[15]) == uint16(p.Nacks[0].LostPackets))
+		var q TransportLayerNack
+		e2 := q.Unmarshal(out)
+		vpAssert("C16.nack.roundtrip", e2 == nil && len(q.Nacks) == 1 && q.Nacks[0] == p.Nacks[0] && q.SenderSSRC == p.SenderSSRC && q.MediaSSRC == p.MediaSSRC)
+		vpObserveBytes("out", out)
+	}
+	// decode-then-encode on an arbitrary entry word
+	raw := []byte{0x81, 205, 0, 3, 0, 0, 0, 1, 0, 0, 0, 2, vpU8(), vpU8(), vpU8(), vpU8()}
+	var r TransportLayerNack
+	e3 := r.Unmarshal(raw)
+	vpAssert("C16.nack.decode-ok", e3 == nil && len(r.Nacks) == 1)
+	if e3 == nil && len(r.Nacks) == 1 {
+		o2, e4 := r.Marshal()
+		ok := e4 == nil && len(o2) == 16
+		if ok {
+			for i := 0; i < 16; i++ {
+				ok = ok && o2[i] == raw[i]
+			}
+		}
+		vpAssert("C16.nack.canon", ok)
+	}
+	vpReach("end")
+}
+
+// ---- SLI entry (13+13+6 bits) through a single-entry packet.
+func VpC16_SLIEntry(a []int) {
+	e := SLIEntry{First: vpU16(), Number: vpU16(), Picture: vpU8()}
+	vpAssume(e.First < 8192 && e.Number < 8192 && e.Picture < 64)
+	p := SliceLossIndication{SenderSSRC: vpU32(), MediaSSRC: vpU32(), SLI: []SLIEntry{e}}
+	out, err := p.Marshal()
+	vpAssert("C16.sli.encode-ok", err == nil && len(out) == 16)
+	if err == nil && len(out) == 16 {
+		w := uint32(out[12])<<24 | uint32(out[13])<<16 | uint32(out[14])<<8 | uint32(out[15])
+		vpAssert("C16.sli.layout", w == uint32(e.First)<<19|uint32(e.Number)<<6|uint32(e.Picture))
+		var q SliceLossIndication
+		e2 := q.Unmarshal(out)
+		vpAssert("C16.sli.roundtrip", e2 == nil && len(q.SLI) == 1 && q.SLI[0] == e)
+	}
+	// decode-then-encode over all 2^32 entry words (own decoder, header as the library writes it)
+	raw := []byte{out[0], out[1], 0, 3, 0, 0, 0, 1, 0, 0, 0, 2, vpU8(), vpU8(), vpU8(), vpU8()}
+	var r SliceLossIndication
+	e3 := r.Unmarshal(raw)
+	vpAssert("C16.sli.decode-ok", e3 == nil && len(r.SLI) == 1)
+	if e3 == nil && len(r.SLI) == 1 {
+		o2, e4 := r.Marshal()
+		ok := e4 == nil && len(o2) == 16
+		if ok {
+			for i := 12; i < 16; i++ {
+				ok = ok && o2[i] == raw[i]
+			}
+		}
+		vpAssert("C16.sli.canon", ok)
+	}
+	vpReach("end")
+}
+
+// ---- FIR entry (32-bit SSRC, 8-bit sequence number, 24 reserved bits).
+func VpC16_FIREntry(a []int) {
+	e := FIREntry{SSRC: vpU32(), SequenceNumber: vpU8()}
+	p := FullIntraRequest{SenderSSRC: vpU32(), MediaSSRC: vpU32(), FIR: []FIREntry{e}}
+	out, err := p.Marshal()
+	vpAssert("C16.fir.encode-ok", err == nil && len(out) == 20)
+	if err == nil && len(out) == 20 {
+		vpAssert("C16.fir.layout", uint32(out[12])<<24|uint32(out[13])<<16|uint32(out[14])<<8|uint32(out[15]) == e.SSRC &&
+			out[16] == e.SequenceNumber && out[17] == 0 && out[18] == 0 && out[19] == 0)
+		var q FullIntraRequest
+		e2 := q.Unmarshal(out)
+		vpAssert("C16.fir.roundtrip", e2 == nil && len(q.FIR) == 1 && q.FIR[0] == e)
+		vpObserveBytes("out", out)
+	}
+	raw := []byte{0x84, 206, 0, 4, 0, 0, 0, 1, 0, 0, 0, 2, vpU8(), vpU8(), vpU8(), vpU8(), vpU8(), 0, 0, 0}
+	var r FullIntraRequest
+	e3 := r.Unmarshal(raw)
+	vpAssert("C16.fir.decode-ok", e3 == nil && len(r.FIR) == 1)
+	if e3 == nil && len(r.FIR) == 1 {
+		o2, e4 := r.Marshal()
+		ok := e4 == nil && len(o2) == 20
+		if ok {
+			for i := 0; i < 20; i++ {
+				ok = ok && o2[i] == raw[i]
+			}
+		}
+		vpAssert("C16.fir.canon", ok)
+	}
+	vpReach("end")
+}
